@@ -58,10 +58,11 @@ fn random_short_name(r: &mut Rng) -> [u8; 11] {
     let mut n = [b' '; 11];
     let bl = r.range(1, 8) as usize;
     let el = r.range(0, 3) as usize;
-    let alphabet: &[u8] = b"ABCDEFGHIJKLMNOPQRSTUVWXYZ0123456789_-~!#$%&'()@^`{}abcxyz";
+    let typable = r.chance(1, 2);
+    let alphabet: &[u8] = if typable { b"ABCDEFGHIJKLMNOPQRSTUVWXYZ0123456789_-~" } else { b"ABCDEFGHIJKLMNOPQRSTUVWXYZ0123456789_-~!#$%&'()@^`{}abcxyz" };
     for i in 0..bl {
         n[i] = match r.below(12) {
-            0 => r.range(0x80, 0xFF) as u8,
+            0 if !typable => r.range(0x80, 0xFF) as u8,
             _ => *r.pick(alphabet),
         };
     }
@@ -557,6 +558,26 @@ pub fn dir_eval(prop: &'static str, case: &DirCase) -> CaseOutcome {
                                 }
                             }
                             Err(_) => push("C06", "open-dir-panic", "", crate::last_panic_location()),
+                        }
+                    }
+                    // names that exist only behind the end-of-directory marker must not be found
+                    let end = fatspec::end_index(&slots);
+                    for s in slots.iter().skip(end) {
+                        if s.raw[0] == 0 || s.raw[0] == 0xE5 || fatspec::slot_is_lfn(&s.raw) {
+                            continue;
+                        }
+                        let mut n = [0u8; 11];
+                        n.copy_from_slice(&s.raw[..11]);
+                        if ents.iter().any(|e| e.name == n) {
+                            continue;
+                        }
+                        if let Some(st) = crate::names::sfn_to_string(&n) {
+                            match guarded!(fs.find(dir, &Name::Str(st), 0)) {
+                                Ok(Ok(_)) => push("C06", "lookup-found-name-behind-end-marker", "", fatspec::name_str(&n)),
+                                Err(_) => push("C06", "lookup-panic", "", crate::last_panic_location()),
+                                _ => {}
+                            }
+                            probes.hit("name_behind_end_marker_looked_up");
                         }
                     }
                     // names not in the directory
